@@ -108,3 +108,6 @@ def run(ctx):
     # ... and the depfile-only model (coq/Engine/HistDepfileDefs.v, theorems of Properties_C10depfile.v): `depfile = X` statements without
     # `deps =`, also mixed with deps = gcc ones; the depfiles on disk are part of the compared state
     histmodel.hook(ctx, 'C10', deps='depfile', quick=250, thorough=3000, key='hist_model_depfile_only')
+    # msvc-style discovered dependencies: the Coq model of CLParser (coq/Misc/ClParserDefs.v, Properties_C10msvc.v) against the real parser
+    import miscmodel
+    miscmodel.hook(ctx)
